@@ -841,6 +841,8 @@ class Environment:
 
         .. versionadded:: 2.4
         """
+        import importlib.util
+
         from .loaders import ModuleLoader
 
         if log_function is None:
@@ -857,8 +859,17 @@ class Environment:
                 info.external_attr = 0o755 << 16
                 zip_file.writestr(info, data)
             else:
-                with open(os.path.join(target, filename), "wb") as f:
+                path = os.path.join(target, filename)
+
+                with open(path, "wb") as f:
                     f.write(data.encode("utf8"))
+
+                # Byte code cached for an earlier version of this module
+                # (same second, same size) must not shadow the new source.
+                try:
+                    os.remove(importlib.util.cache_from_source(path))
+                except (OSError, NotImplementedError):
+                    pass
 
         if zip is not None:
             from zipfile import ZIP_DEFLATED
@@ -893,6 +904,11 @@ class Environment:
         finally:
             if zip:
                 zip_file.close()
+
+            # The target may have been imported from before: the import
+            # system keeps the table of contents of an archive (and the
+            # listing of a directory) until told that it changed.
+            importlib.invalidate_caches()
 
         log_function("Finished compiling templates")
 
